@@ -10,7 +10,8 @@ import glob, json, os, re, subprocess, sys
 ROOT = os.path.dirname(os.path.dirname(os.path.abspath(__file__)))
 COV = "/root/cov"
 T = "/root/.rustup/toolchains/nightly-x86_64-unknown-linux-gnu/lib/rustlib/x86_64-unknown-linux-gnu/bin"
-env = dict(os.environ, CARGO_NET_OFFLINE="true", CARGO_TARGET_DIR=COV + "/target", RUSTFLAGS="-C instrument-coverage")
+env = dict(os.environ, CARGO_NET_OFFLINE="true", CARGO_TARGET_DIR=COV + "/target", RUSTFLAGS="-C instrument-coverage",
+           LLVM_PROFILE_FILE=COV + "/build-%p.profraw")  # build scripts are instrumented too: keep their output out of /repo
 if sys.argv[1] == "build":
     sys.exit(subprocess.call(["cargo", "+nightly", "build", "--offline", "--bins", "-j8"], cwd=ROOT + "/harness", env=env))
 pid = sys.argv[1]
